@@ -20,6 +20,7 @@ pub mod c16;
 pub mod c17;
 pub mod c18;
 pub mod c19;
+pub mod c20;
 pub mod hist;
 
 pub fn run(id: &str, ctx: &Ctx) -> Option<Report> {
@@ -42,6 +43,7 @@ pub fn run(id: &str, ctx: &Ctx) -> Option<Report> {
         "C17" => c17::run(ctx),
         "C18" => c18::run(ctx),
         "C19" => c19::run(ctx),
+        "C20" => c20::run(ctx),
         _ => return None,
     })
 }
